@@ -159,6 +159,16 @@ def build_history(ex, variant):
         A.put_hunk(ex, st, 0, 0, [root(), A.mk_entry(ex, '/d', 'Dir', 2, mode=0o750)])
         A.put_hunk(ex, st, 0, 1, [A.mk_entry(ex, '/d/f', 'File', 3, addrs=[block('A', 1)], mode=0o644)])
         A.put_tail(ex, st, 0, 2)
+    elif variant == 'chain':
+        # two unfinished versions over a finished one: the newest takes '/a' from the middle one and '/z' from the oldest
+        A.put_head(ex, st, 0)
+        A.put_hunk(ex, st, 0, 0, [root(), A.mk_entry(ex, '/a', 'File', 2, addrs=[block('A', 1)], mode=0o644),
+                                   A.mk_entry(ex, '/z', 'File', 4, addrs=[block('Z', 4)], mode=0o644)])
+        A.put_tail(ex, st, 0, 1)
+        A.put_head(ex, st, 1)
+        A.put_hunk(ex, st, 1, 0, [root(), A.mk_entry(ex, '/a', 'File', 5, addrs=[block('B', 2)], mode=0o644)])
+        A.put_head(ex, st, 2)
+        A.put_hunk(ex, st, 2, 0, [root()])
     elif variant == 'deep':
         # a finished band of three hunks and an unfinished newer one of two hunks that stitches onto it for its tail
         A.put_head(ex, st, 0)
@@ -333,6 +343,21 @@ def make_contained(prog, op, variant='single'):
                                 out['problems'].append('%s of band %d was restored with altered bytes' % (p, b))
                             if not errs:
                                 out['problems'].append('%s of band %d was lost or altered by the damage but no error was reported' % (p, b))
+                    if role == 'head' and not out['problems']:
+                        # independent of what the reader under test makes of the damaged archive: every file that the stitching rule
+                        # (written from the property statement, harness/backup.py) still assigns to this version from a band whose head,
+                        # hunk and blocks are intact must come back
+                        bands_now, blocks_now = A.read_store(ex, st)
+                        for (sb, p) in B.expected_stitch(ex, st, b):
+                            if sb == bnum or p == '/':
+                                continue
+                            ent = [e for hn in bands_now[sb]['hunks'] for e in (bands_now[sb]['hunks'][hn] or []) if B.entry_fields(ex, e)['apath'] == p]
+                            if not ent or B.entry_fields(ex, ent[0])['kind'] != 'File':
+                                continue
+                            n = fs.nodes.get(R.DEST + p)
+                            if not (n is not None and n.kind == 'file' and bool(n.content) and all(c != 99 for c, o, l in n.content)):
+                                out['problems'].append('%s, which version %d takes from the intact band %d, was not restored after the head of band %d was damaged'
+                                                       % (p, b, sb, bnum))
             elif op == 'backup':
                 if variant == 'multi':
                     hs = ex.env['hist_sizes']
